@@ -127,7 +127,12 @@ pub(super) fn execute_aggregate<'a, S: GraphSnapshot + 'a>(
                         if saw_float {
                             Value::Float(float_sum)
                         } else {
-                            Value::Int(int_sum as i64)
+                            // Same overflow rule as `+`: exact while the sum fits in
+                            // an i64, float otherwise (never wrap around).
+                            match i64::try_from(int_sum) {
+                                Ok(sum) => Value::Int(sum),
+                                Err(_) => Value::Float(float_sum),
+                            }
                         }
                     }
                     AggregateFunction::SumDistinct(expr) => {
@@ -166,7 +171,12 @@ pub(super) fn execute_aggregate<'a, S: GraphSnapshot + 'a>(
                         if saw_float {
                             Value::Float(float_sum)
                         } else {
-                            Value::Int(int_sum as i64)
+                            // Same overflow rule as `+`: exact while the sum fits in
+                            // an i64, float otherwise (never wrap around).
+                            match i64::try_from(int_sum) {
+                                Ok(sum) => Value::Int(sum),
+                                Err(_) => Value::Float(float_sum),
+                            }
                         }
                     }
                     AggregateFunction::Avg(expr) => {
